@@ -36,6 +36,8 @@ MIN = {'quick': {'distinct': 2000,
                            'cli.transitions': 20},
                  'strata': {'cli with a token-editing transformation': 8,
                             'cli with latin-1 on either side': 10,
+                            'cli with a transformation that returns a new '
+                            'root': 6,
                             'second call on a changed copy': 1000,
                             'gap: unary root': 100, 'gap: gapdeg>=2': 100,
                             'one-token sentence': 30,
@@ -450,11 +452,12 @@ def run_cli(ctx, rng, i):
             for t_ in gen.tokens_of(s_['root']):
                 if rng.random() < 0.3 and t_['w'] not in gen.PUNCT:
                     t_['w'] = rng.choice(['Übung', 'café', 'Ärger', 'ß'])
-    cli_case(ctx, bank, system, pos, sfmt, edit, senc, denc)
+    cli_case(ctx, bank, system, pos, sfmt, edit, senc, denc,
+             top=rng.random() < 0.3)
 
 
 def cli_case(ctx, bank, system, pos, sfmt='export', edit=False,
-             senc='utf-8', denc='utf-8'):
+             senc='utf-8', denc='utf-8', top=False):
     text = {'export': lambda: codec.export_encode(bank),
             'tigerxml': lambda: codec.tigerxml_encode(bank, encoding=senc),
             'discobrackets': lambda: codec.discobrackets_encode(bank),
@@ -463,7 +466,8 @@ def cli_case(ctx, bank, system, pos, sfmt='export', edit=False,
     dest = ctx.path('.trans')
     args = ['transitions', src, dest, system, '--transform'] + \
         (['punctuation_delete'] if edit else []) + \
-        ['negra_mark_heads', 'binarize', '--src-format', sfmt,
+        ['negra_mark_heads', 'binarize'] + (['add_topnode'] if top else []) \
+        + ['--src-format', sfmt,
          '--src-opts', 'quiet', '--src-enc', senc, '--dest-enc', denc]
     if edit:
         # a token-editing step first: the sentence written next to the
@@ -484,8 +488,15 @@ def cli_case(ctx, bank, system, pos, sfmt='export', edit=False,
     if pos:
         args += ['--dest-opts', 'pos']
     case = {'kind': 'cli', 'bank': bank, 'system': system, 'pos': pos,
-            'sfmt': sfmt, 'edit': edit, 'senc': senc, 'denc': denc}
+            'sfmt': sfmt, 'edit': edit, 'senc': senc, 'denc': denc,
+            'top': top}
     bank = bank_expected
+    if top:
+        # a transformation that returns a new root: the oracle runs on it
+        bank = [{'sid': s_['sid'],
+                 'root': {'l': 'TOP', 'e': '--', 'c': [s_['root']]}}
+                for s_ in bank]
+        ctx.stratum('cli with a transformation that returns a new root')
     rc, out, err = common.cli(args)
     ctx.hook('cli.transitions')
     if rc != 0:
@@ -705,6 +716,7 @@ def replay(ctx, case):
     elif case['kind'] == 'cli':
         cli_case(ctx, case['bank'], case['system'], case['pos'],
                  case.get('sfmt', 'export'), case.get('edit', False),
-                 case.get('senc', 'utf-8'), case.get('denc', 'utf-8'))
+                 case.get('senc', 'utf-8'), case.get('denc', 'utf-8'),
+                 case.get('top', False))
     else:
         writer_case(ctx, case, rng)
